@@ -149,19 +149,30 @@ def maskRank (cast : Nat → α) (r : Nat) : Option α → Option α
   | none => none
   | some _ => some (cast r)
 
+/-- the rank after `candidate_utilities[i, sample_indices[i]] = candidate_utilities.shape[1] + 1`
+(repair 79ce7853: forced *after* ranking, so it exceeds every ordinal rank `≤ n`). -/
+def chosenRank (n chosen r i : Nat) : Nat := if i = chosen then n + 1 else r
+
+/-- row `i` of the rank matrix: NaN → `-inf`, ordinal ranks, the chosen sample's rank set to `n + 1`,
+as floats (`cast`), the NaN positions of the *input* row restored. -/
+def rankRow (ninf : α) (cast : Nat → α) (row : List (Option α)) (chosen : Nat) : List (Option α) :=
+  let filled := row.map (fillNaN ninf)
+  (List.range row.length).map
+    (fun i => maskRank cast (chosenRank row.length chosen (ordRank filled i) i) (row.getD i none))
+
 variable [Add α] [OfNat α 1]
 
-/-- value written at the chosen sample: `np.nanmax(row) + 1` (row already NaN-free). -/
-def forcedTop (ninf : α) (filled : List α) : α :=
+/-- **before repair 79ce7853**: value written at the chosen sample *before* ranking,
+`np.nanmax(row) + 1` (row already NaN-free) — not above the row when the maximum is infinite. -/
+def forcedTopOld (ninf : α) (filled : List α) : α :=
   match nanmax (filled.map some) with
   | some mx => mx + 1
   | none => ninf
 
-/-- row `i` of the rank matrix: NaN → `-inf`, the chosen sample gets `max + 1`, ordinal ranks as
-floats (`cast`), the NaN positions of the *input* row restored. -/
-def rankRow (ninf : α) (cast : Nat → α) (row : List (Option α)) (chosen : Nat) : List (Option α) :=
+/-- **before repair 79ce7853**: the chosen sample gets `max + 1`, then ordinal ranks. -/
+def rankRowOld (ninf : α) (cast : Nat → α) (row : List (Option α)) (chosen : Nat) : List (Option α) :=
   let filled := row.map (fillNaN ninf)
-  let forced := filled.set chosen (forcedTop ninf filled)
+  let forced := filled.set chosen (forcedTopOld ninf filled)
   (List.range row.length).map (fun i => maskRank cast (ordRank forced i) (row.getD i none))
 
 def combineAt (m : Nat) (avail : List Bool) (au : List α) (rk : List (Option α)) (p : Nat) : Option α :=
